@@ -25,7 +25,7 @@ RULE = (
     "histories mat-set . enc(other)-sequence . roundtrip(fmt, via): mat-set = every subset of size <= k of 14 derived quantities and the full set; "
     "enc-sequence = every sequence of length <= j over {big grid with edges, small grid, the grid under test itself} x {ugrid, exodus, scrip}; fmt in {ugrid, exodus, scrip}; "
     "via in {dataset, NetCDF file}; on grids {mixed 3..6-gon patch, cube, cube with split face (3/4 mix), one face of every size 3..8, antimeridian strip, "
-    "xyz-bearing source}. non-trivial = mixed-size grid or non-empty prefix; distinct = (grid, mat-set, enc-sequence, fmt, via)"
+    "xyz-bearing source (unit sphere), xyz-bearing source in kilometres, grid read from an MPAS source (metres, supplied edges/centres/areas)}. non-trivial = mixed-size grid or non-empty prefix; distinct = (grid, mat-set, enc-sequence, fmt, via)"
 )
 ASSUMPTIONS = [
     "faces are compared by corner position (1e-9 chord), cyclic order up to rotation; same face order for UGRID and SCRIP, multiset for Exodus",
@@ -33,8 +33,8 @@ ASSUMPTIONS = [
     "Exodus date/time variables are not compared; NetCDF files are written to a private temporary directory",
 ]
 BOUNDS = {
-    "quick": "k<=1 (+full set), j<=1, 6 grids, both vias",
-    "thorough": "k<=2 (+full set), j<=2, 6 grids, both vias",
+    "quick": "k<=1 (+full set), j<=1, 8 grids, both vias",
+    "thorough": "k<=2 (+full set), j<=2, 8 grids, both vias",
 }
 MATS = [
     "edge_node_connectivity", "face_edge_connectivity", "edge_face_connectivity", "node_face_connectivity", "face_face_connectivity",
@@ -42,17 +42,23 @@ MATS = [
     "antimeridian_face_indices",
 ]
 FMTS = ["ugrid", "exodus", "scrip"]
-GRIDS = ["mixedpatch", "cube", "cubesplit", "sizes38", "amstrip", "xyz:prism"]
+GRIDS = ["mixedpatch", "cube", "cubesplit", "sizes38", "amstrip", "xyz:prism", "xyzkm:cubesplit", "mpas:mixedpatch"]
 OTHERS = ["big", "small", "self"]
 
 
 def _grid(name):
     import uxarray as ux
 
-    if name.startswith("xyz:"):
-        m = meshes.get(name[4:])
+    if name.startswith("mpas:"):
+        # read from an MPAS source: Cartesian coordinates in metres, supplied edges, centres, areas
+        from vf.alpha import dialects as D
+
+        m = meshes.get(name[5:])
+        return ux.open_grid(D.mpas(m, optional="all")[0]), m
+    if name.startswith("xyz:") or name.startswith("xyzkm:"):
+        m = meshes.get(name.split(":", 1)[1])
         lon, lat = m.lonlat()
-        P = np.array(m.points)
+        P = np.array(m.points) * (6371.229 if name.startswith("xyzkm:") else 1.0)  # Cartesian coordinates off the unit sphere
         return ux.Grid.from_topology(lon.copy(), lat.copy(), m.table(), fill_value=build.FILL, node_x=P[:, 0].copy(), node_y=P[:, 1].copy(), node_z=P[:, 2].copy()), m
     m = meshes.get(name)
     return build.grid(m), m
@@ -229,7 +235,7 @@ def run_case(case):
 
 
 def _meshof(gname):
-    return meshes.get(gname[4:] if gname.startswith("xyz:") else gname)
+    return meshes.get(gname.split(":", 1)[1] if ":" in gname else gname)
 
 
 def run(ctx):
